@@ -51,7 +51,17 @@ def trace(name):
 
 
 def xs(rng, n, pat=None):
-    pat = pat if pat is not None else rng.integers(0, 7)
+    pat = pat if pat is not None else rng.integers(0, 9)
+    if pat == 8:
+        # a regular grid up to a relative jitter of 1e-6 .. 1e-8 (sampling clock drift): NOT regular, although every
+        # tolerance-based comparison of the steps says so
+        h = float(10.0 ** rng.uniform(-3, 3))
+        x = np.cumsum(h * (1.0 + rng.uniform(-1, 1, n) * 10.0 ** -int(rng.integers(6, 9))))
+        return x, 8
+    if pat == 7:
+        # nanosecond units expressed in seconds: uneven gaps of 1e-9 .. 1e-11, far below any absolute tolerance
+        x = np.cumsum(rng.uniform(0.05, 3.0, n)) * 10.0 ** -int(rng.integers(9, 12))
+        return x, 7
     if pat == 6:
         # large origin, small increments (time stamps, byte offsets): relative x span 1e-5 .. 1e-11
         off = float(int(10.0 ** rng.uniform(6, 12)))
